@@ -111,7 +111,7 @@ theorem no_handler_before_hsOk {s : Sess} (h : Unauth s) (evs : List (Ev × List
 PDU written in any history of an unauthenticated session is preceded by the oracle's success … -/
 theorem nothing_queued_written_before_established {s : Sess} (h : Unauth s) (evs : List (Ev × List Orc))
     (pre post : List Out) (tls : Bool) (v : View) (sn : Option Nat)
-    (htr : (s.run evs).2 = pre ++ Out.tx tls v sn :: post) : Out.hsOkMark ∈ pre := by
+    (htr : (s.run evs).2 = pre ++ Out.tx tls v sn cnt :: post) : Out.hsOkMark ∈ pre := by
   have hk := (run_sessOk evs (unauth_sessOk h)).ok
   rw [htr] at hk
   rcases mon_split _ pre post _ hk rfl with h1 | ⟨x, hx, hm⟩
@@ -121,8 +121,8 @@ theorem nothing_queued_written_before_established {s : Sess} (h : Unauth s) (evs
 /-- … and every PDU of a DTLS session is written through the TLS layer (coap_dtls_send), never by the plain datagram
 write: nothing goes out in clear, in any history. -/
 theorem no_cleartext_on_dtls_session {s : Sess} (h : Unauth s) (evs : List (Ev × List Orc)) :
-    ∀ o ∈ (s.run evs).2, ∀ v sn, o ≠ Out.tx false v sn := by
-  intro o ho v sn heq
+    ∀ o ∈ (s.run evs).2, ∀ v sn cnt, o ≠ Out.tx false v sn cnt := by
+  intro o ho v sn cnt heq
   have := mon_noclear _ _ (run_sessOk evs (unauth_sessOk h)).ok o ho
   subst heq
   simp [Out.isClear] at this
@@ -502,7 +502,7 @@ theorem queued_delivered_in_order_once_on_success_partial (fuel : Nat) (c : Ctx)
     (he : c.s.est = true) (hs : c.s.state = .established) (hd : c.s.dtlsEvent = none)
     (ho : ∀ n, c.orc.drop n = [] ∨ ∃ t, c.orc.drop n = Orc.snd .ok :: t) (hlen : c.s.delayq.length ≤ c.orc.length)
     (hf : c.s.delayq.length < fuel) :
-    (Ctx.flushLoop fuel c).out = c.out ++ (sentPrefix c.s.conActive c.s.delayq).map (fun m => Out.tx true (m.view false) (some m.sn)) ∧
+    (Ctx.flushLoop fuel c).out = c.out ++ (sentPrefix c.s.conActive c.s.delayq).map (fun m => Out.tx true (m.view false) (some m.sn) m.cnt) ∧
       (Ctx.flushLoop fuel c).s.delayq = c.s.delayq.drop (sentPrefix c.s.conActive c.s.delayq).length := by
   induction fuel generalizing c with
   | zero => omega
@@ -524,7 +524,7 @@ theorem queued_delivered_in_order_once_on_success_partial (fuel : Nat) (c : Ctx)
         simp [sentPrefix, hc, hca, hq]
       · simp only [hblock, if_false]
         -- one round
-        have hone : (c.flushOne q rest).out = c.out ++ [Out.tx true (q.view false) (some q.sn)] ∧
+        have hone : (c.flushOne q rest).out = c.out ++ [Out.tx true (q.view false) (some q.sn) q.cnt] ∧
             (c.flushOne q rest).s.delayq = rest ∧ (c.flushOne q rest).ret = 1 ∧ (c.flushOne q rest).orc = t ∧
             (c.flushOne q rest).s.proto = .dtls ∧ (c.flushOne q rest).s.est = true ∧
             (c.flushOne q rest).s.state = .established ∧ (c.flushOne q rest).s.dtlsEvent = none ∧
@@ -576,12 +576,12 @@ theorem tls_no_handler_before_hsOk {s : Sess} (hp : s.proto = .tls) (he : s.est 
 /-- … and every PDU written (the CSM included) is preceded by it and goes through coap_tls_write -/
 theorem tls_nothing_written_before_hsOk {s : Sess} (hp : s.proto = .tls) (he : s.est = false) (hst : s.state ≠ .established)
     (evs : List (Ev × List Orc)) (pre post : List Out) (tls : Bool) (v : View) (sn : Option Nat)
-    (htr : (s.run evs).2 = pre ++ Out.tx tls v sn :: post) : Out.hsOkMark ∈ pre ∧ tls = true := by
+    (htr : (s.run evs).2 = pre ++ Out.tx tls v sn cnt :: post) : Out.hsOkMark ∈ pre ∧ tls = true := by
   have hu : Unauth s := ⟨he, hst, by simp [hp]⟩
   refine ⟨nothing_queued_written_before_established hu evs pre post tls v sn htr, ?_⟩
   cases tls with
   | true => rfl
-  | false => exact absurd rfl (no_cleartext_on_dtls_session hu evs _ (by rw [htr]; simp) v sn)
+  | false => exact absurd rfl (no_cleartext_on_dtls_session hu evs _ (by rw [htr]; simp) v sn cnt)
 
 /-- whole life of a TLS client session, from coap_new_client_session_psk2 on -/
 theorem tls_client_life_gated (now : Bool) (orc0 : List Orc) (evs : List (Ev × List Orc)) (pre post : List Out) (o : Out)
@@ -635,7 +635,7 @@ theorem tls_queued_delivered_in_order_once_on_success (fuel : Nat) (c : Ctx) (hp
     (he : c.s.est = true) (hs : c.s.state = .established)
     (ho : ∀ n, c.orc.drop n = [] ∨ ∃ t, c.orc.drop n = Orc.snd .ok :: t) (hlen : c.s.delayq.length ≤ c.orc.length)
     (hf : c.s.delayq.length < fuel) :
-    (Ctx.flushLoop fuel c).out = c.out ++ c.s.delayq.map (fun m => Out.tx true m.strmView (some m.sn)) ∧
+    (Ctx.flushLoop fuel c).out = c.out ++ c.s.delayq.map (fun m => Out.tx true m.strmView (some m.sn) m.cnt) ∧
       (Ctx.flushLoop fuel c).s.delayq = [] := by
   induction fuel generalizing c with
   | zero => omega
@@ -653,7 +653,7 @@ theorem tls_queued_delivered_in_order_once_on_success (fuel : Nat) (c : Ctx) (hp
       have hblock : ¬ ((q.con && decide (c.s.proto ≠ Proto.tls) && decide (c.s.conActive ≥ NSTART)) = true) := by
         simp [hp]
       simp only [hblock, if_false, Bool.false_eq_true]
-      have hone : (c.flushOne q rest).out = c.out ++ [Out.tx true q.strmView (some q.sn)] ∧
+      have hone : (c.flushOne q rest).out = c.out ++ [Out.tx true q.strmView (some q.sn) q.cnt] ∧
           (c.flushOne q rest).s.delayq = rest ∧ (c.flushOne q rest).ret = 1 ∧ (c.flushOne q rest).orc = t ∧
           (c.flushOne q rest).s.proto = .tls ∧ (c.flushOne q rest).s.est = true ∧
           (c.flushOne q rest).s.state = .established := by
@@ -810,14 +810,14 @@ the first lg_crcv entry's request and returns, the request stays queued and is r
 theorem queued_con_one_nack_on_failure {s : Sess} (h : Unauth s) (hl : Ledger0 s) (pre rest : List (Ev × List Orc)) (q : QMsg)
     (hq : q ∈ (s.run pre).1.delayq) (hc : q.con = true) (hal : (s.run pre).1.state ≠ .none)
     (hfr : (s.run pre).1.freed = false) (hnm : Out.hsOkMark ∉ (s.run (pre ++ rest)).2) :
-    (∀ o ∈ (s.run (pre ++ rest)).2, ∀ tls v sn, o ≠ Out.tx tls v sn) ∧
+    (∀ o ∈ (s.run (pre ++ rest)).2, ∀ tls v sn cnt, o ≠ Out.tx tls v sn cnt) ∧
     ((∃ x ∈ (s.run (pre ++ rest)).1.delayq, x.sn = q.sn ∧ x.con = true ∧ (s.run (pre ++ rest)).1.state ≠ .none ∧
         (s.run (pre ++ rest)).1.freed = false ∧ nk q.sn (s.run (pre ++ rest)).2 = 0) ∨
      ((∀ x ∈ (s.run (pre ++ rest)).1.delayq, x.sn ≠ q.sn) ∧ nk q.sn (s.run (pre ++ rest)).2 = 1)) ∧
     ((s.run (pre ++ rest)).1.state = .none ∨ (s.run (pre ++ rest)).1.freed = true →
       nk q.sn (s.run (pre ++ rest)).2 = 1) := by
-  have hnotx : ∀ o ∈ (s.run (pre ++ rest)).2, ∀ tls v sn, o ≠ Out.tx tls v sn := by
-    intro o ho tls v sn heq
+  have hnotx : ∀ o ∈ (s.run (pre ++ rest)).2, ∀ tls v sn cnt, o ≠ Out.tx tls v sn cnt := by
+    intro o ho tls v sn cnt heq
     subst heq
     obtain ⟨a, b, hab⟩ := List.append_of_mem ho
     have := nothing_queued_written_before_established h (pre ++ rest) a b tls v sn hab
@@ -950,7 +950,7 @@ theorem flush_accepting_frame (fuel : Nat) (c : Ctx) (hp : c.s.proto = .dtls)
 theorem recvHs_ok (c : Ctx) (snds : List Orc) (horc : c.orc = .hs .ok :: snds) (hp : c.s.proto = .dtls)
     (hst : c.s.state = .handshake) (hd : c.s.dtlsEvent = none)
     (ho : ∀ n, snds.drop n = [] ∨ ∃ t, snds.drop n = Orc.snd .ok :: t) (hlen : c.s.delayq.length ≤ snds.length) :
-    c.recvHs.out = c.out ++ Out.hsOkMark :: (sentPrefix c.s.conActive c.s.delayq).map (fun m => Out.tx true (m.view false) (some m.sn)) ∧
+    c.recvHs.out = c.out ++ Out.hsOkMark :: (sentPrefix c.s.conActive c.s.delayq).map (fun m => Out.tx true (m.view false) (some m.sn) m.cnt) ∧
     c.recvHs.s.delayq = c.s.delayq.drop (sentPrefix c.s.conActive c.s.delayq).length ∧
     c.recvHs.s.state = .established ∧ c.recvHs.s.appRef = c.s.appRef ∧ c.recvHs.s.typ = c.s.typ ∧
     c.recvHs.s.freed = c.s.freed := by
@@ -996,7 +996,7 @@ theorem establishing_dgram (s : Sess) (snds : List Orc) (hp : s.proto = .dtls) (
     (hest : s.est = false) (hst : s.state = .handshake) (hfr : s.freed = false) (hap : s.appRef = true)
     (ho : ∀ n, snds.drop n = [] ∨ ∃ t, snds.drop n = Orc.snd .ok :: t) (hlen : s.delayq.length ≤ snds.length) :
     (s.step .dgram (.hs .ok :: snds)).2 =
-      Out.hsOkMark :: (sentPrefix s.conActive s.delayq).map (fun m => Out.tx true (m.view false) (some m.sn)) ∧
+      Out.hsOkMark :: (sentPrefix s.conActive s.delayq).map (fun m => Out.tx true (m.view false) (some m.sn) m.cnt) ∧
     (s.step .dgram (.hs .ok :: snds)).1.delayq = s.delayq.drop (sentPrefix s.conActive s.delayq).length ∧
     (s.step .dgram (.hs .ok :: snds)).1.state = .established := by
   have hr := recvHs_ok (({ s := s, orc := .hs .ok :: snds } : Ctx).upd fun s => { s with dtlsEvent := none }) snds rfl hp hst rfl
@@ -1035,10 +1035,10 @@ theorem queued_first_flush_in_order_once_on_success {s : Sess} (h : Unauth s) (h
     (hp : (s.run pre).1.proto = .dtls) (hty : (s.run pre).1.typ ≠ .hello) (htls : (s.run pre).1.tls = true)
     (hst : (s.run pre).1.state = .handshake) (hfr : (s.run pre).1.freed = false) (hap : (s.run pre).1.appRef = true)
     (ho : ∀ n, snds.drop n = [] ∨ ∃ t, snds.drop n = Orc.snd .ok :: t) (hlen : (s.run pre).1.delayq.length ≤ snds.length) :
-    (∀ o ∈ (s.run pre).2, ∀ tls v sn, o ≠ Out.tx tls v sn) ∧
+    (∀ o ∈ (s.run pre).2, ∀ tls v sn cnt, o ≠ Out.tx tls v sn cnt) ∧
     ((s.run pre).1.delayq.map (·.sn)).Pairwise (· < ·) ∧
     (s.run (pre ++ [(.dgram, .hs .ok :: snds)])).2 = (s.run pre).2 ++ Out.hsOkMark ::
-      (sentPrefix (s.run pre).1.conActive (s.run pre).1.delayq).map (fun m => Out.tx true (m.view false) (some m.sn)) ∧
+      (sentPrefix (s.run pre).1.conActive (s.run pre).1.delayq).map (fun m => Out.tx true (m.view false) (some m.sn) m.cnt) ∧
     (s.run (pre ++ [(.dgram, .hs .ok :: snds)])).1.delayq =
       (s.run pre).1.delayq.drop (sentPrefix (s.run pre).1.conActive (s.run pre).1.delayq).length ∧
     (s.run (pre ++ [(.dgram, .hs .ok :: snds)])).1.state = .established ∧
@@ -1046,8 +1046,8 @@ theorem queued_first_flush_in_order_once_on_success {s : Sess} (h : Unauth s) (h
     (∀ x ∈ sentPrefix (s.run pre).1.conActive (s.run pre).1.delayq, wr x.sn (s.run (pre ++ [(.dgram, .hs .ok :: snds)])).2 = 1) ∧
     (∀ j, nk j (s.run (pre ++ [(.dgram, .hs .ok :: snds)])).2 ≤ 1) ∧
     (∀ x ∈ (s.run pre).1.delayq, nk x.sn (s.run (pre ++ [(.dgram, .hs .ok :: snds)])).2 = 0) := by
-  have hnotx : ∀ o ∈ (s.run pre).2, ∀ tls v sn, o ≠ Out.tx tls v sn := by
-    intro o ho' tls v sn heq
+  have hnotx : ∀ o ∈ (s.run pre).2, ∀ tls v sn cnt, o ≠ Out.tx tls v sn cnt := by
+    intro o ho' tls v sn cnt heq
     subst heq
     obtain ⟨a, b, hab⟩ := List.append_of_mem ho'
     have := nothing_queued_written_before_established h pre a b tls v sn hab
@@ -1069,10 +1069,10 @@ theorem queued_first_flush_in_order_once_on_success {s : Sess} (h : Unauth s) (h
     rw [List.countP_eq_zero]
     intro o ho' hwr
     cases o with
-    | tx a v sn => exact hnotx _ ho' a v sn rfl
+    | tx a v sn cnt => exact hnotx _ ho' a v sn cnt rfl
     | _ => simp [Out.writes] at hwr
   have hwf : ∀ j, wr j ((s.run pre).2 ++ Out.hsOkMark ::
-      (sentPrefix (s.run pre).1.conActive (s.run pre).1.delayq).map (fun m => Out.tx true (m.view false) (some m.sn))) =
+      (sentPrefix (s.run pre).1.conActive (s.run pre).1.delayq).map (fun m => Out.tx true (m.view false) (some m.sn) m.cnt)) =
       (sentPrefix (s.run pre).1.conActive (s.run pre).1.delayq).countP (fun m => m.sn == j) := by
     intro j
     have := hw0 j
@@ -1083,7 +1083,7 @@ theorem queued_first_flush_in_order_once_on_success {s : Sess} (h : Unauth s) (h
   have hsp : ((sentPrefix (s.run pre).1.conActive (s.run pre).1.delayq).map (·.sn)).Pairwise (· < ·) :=
     List.Pairwise.sublist (List.Sublist.map _ (sentPrefix_isPrefix _ _).sublist) l2
   have hnf : ∀ j, nk j ((s.run pre).2 ++ Out.hsOkMark ::
-      (sentPrefix (s.run pre).1.conActive (s.run pre).1.delayq).map (fun m => Out.tx true (m.view false) (some m.sn))) =
+      (sentPrefix (s.run pre).1.conActive (s.run pre).1.delayq).map (fun m => Out.tx true (m.view false) (some m.sn) m.cnt)) =
       nk j (s.run pre).2 := by
     intro j
     rw [nk_append, nk_quiet j (Out.hsOkMark :: _)]
@@ -1148,8 +1148,8 @@ example :
                       (.strmRead, [.hs .ok, .snd .ok, .recv .again]),
                       (.strmRead, [.recv (.data ⟨0, 225, 0, "-", ""⟩), .snd .ok, .snd .ok]),
                       (.strmRead, [.recv (.data ⟨0, 69, 0, "01", "6869"⟩)])]).2 =
-      [.hsOkMark, .ev .connected, .tx true ⟨0, 225, 0, "-", ""⟩ (some 2),
-       .evTcp .sessConnected, .tx true ⟨0, 1, 0, "01", ""⟩ (some 0), .tx true ⟨0, 1, 0, "02", ""⟩ (some 1),
+      [.hsOkMark, .ev .connected, .tx true ⟨0, 225, 0, "-", ""⟩ (some 2) 0,
+       .evTcp .sessConnected, .tx true ⟨0, 1, 0, "01", ""⟩ (some 0) 0, .tx true ⟨0, 1, 0, "02", ""⟩ (some 1) 0,
        .rsp "01" 69] := by
   decide
 
@@ -1176,7 +1176,7 @@ example :
     (hsClient.run [(.appSend true 1 7 "01", []), (.appSend false 1 8 "02", []),
                    (.dgram, [.hs .ok, .snd .ok, .snd .ok]),
                    (.dgram, [.recv (.data ⟨2, 69, 7, "01", "6869"⟩)])]).2 =
-      [.hsOkMark, .tx true ⟨0, 1, 7, "01", ""⟩ (some 0), .tx true ⟨1, 1, 8, "02", ""⟩ (some 1), .rsp "01" 69] := by
+      [.hsOkMark, .tx true ⟨0, 1, 7, "01", ""⟩ (some 0) 0, .tx true ⟨1, 1, 8, "02", ""⟩ (some 1) 0, .rsp "01" 69] := by
   decide
 
 /-- the handshake fails with an alert: the CON is NACKed once, the NON dropped, nothing written, session NONE -/
@@ -1294,7 +1294,7 @@ example : Out.hsOkMark ∉ (hsClient.run okPre).2 ∧ (hsClient.run okPre).1.pro
 /-- … and the whole trace: the mark, the NON and the first CON through the TLS layer, in submission order; the second CON
 waits for the ACK (NSTART) -/
 example : (hsClient.run (okPre ++ [(.dgram, .hs .ok :: List.replicate 3 (Orc.snd .ok))])).2 =
-    [.hsOkMark, .tx true ⟨1, 1, 7, "01", ""⟩ (some 0), .tx true ⟨0, 1, 8, "02", ""⟩ (some 1)] ∧
+    [.hsOkMark, .tx true ⟨1, 1, 7, "01", ""⟩ (some 0) 0, .tx true ⟨0, 1, 8, "02", ""⟩ (some 1) 0] ∧
     ((hsClient.run (okPre ++ [(.dgram, .hs .ok :: List.replicate 3 (Orc.snd .ok))])).1.delayq.map (·.sn)) = [2] := by
   decide
 
